@@ -242,6 +242,23 @@ class SockRun:
                     self.h.rec("recv", name, len(d))
             except EndOfStream:
                 e["end"] = "EOS"
+                # the end of the stream is a state, not an event: asking again must give the same answer at once
+                for _ in range(2):
+                    again = None
+                    with anyio.move_on_after(30):
+                        try:
+                            d = await st.receive(1)
+                            again = f"returned {len(d)} byte(s)"
+                        except EndOfStream:
+                            again = "EOS"
+                        except (ClosedResourceError, BrokenResourceError):
+                            again = "EOS"        # closed locally / the connection broke meanwhile (our own send hit the closed peer)
+                    if again != "EOS":
+                        self.v("no_end", f"{name}: receive() after EndOfStream had been reported "
+                                         f"{'blocked for 30 virtual seconds' if again is None else again}")
+                        break
+                else:
+                    self.bump("end_of_stream_repeated")
             except BrokenResourceError:
                 e["end"] = "BROKEN"
             except ClosedResourceError:
